@@ -1,1 +1,4 @@
 import TeosVerif.Model.TxIndex
+import TeosVerif.Model.Basic
+import TeosVerif.Model.Tower
+import TeosVerif.Props.C19
